@@ -311,10 +311,14 @@ def run_history(rec: Recorder, d: Path, drv: str, fam, history: str, case_extra=
 # ---------------------------------------------------------------------------------------------------------
 # the reserved value and its neighbours on the raw IH5 API
 # ---------------------------------------------------------------------------------------------------------
+SPREAD = (0x00, 0x01, 0x0A, 0x1A, 0x20, 0x41, 0x7E, 0x7F, 0x80, 0x81, 0xC3, 0xF7, 0xFE, 0xFF)
+
+
 def neighbours(full=True):
-    """All 1-byte values and the 2-byte values containing 0x7f (quick: a spread of 16 second bytes), a few longer ones."""
-    second = range(256) if full else (0x00, 0x01, 0x0A, 0x1A, 0x20, 0x41, 0x7E, 0x7F, 0x80, 0x81, 0xC3, 0xF7, 0xFE, 0xFF)
-    vals = [bytes([i]) for i in range(256)]
+    """full=True: all 1-byte values and all 2-byte values containing 0x7f; full=False: all 1-byte values and a spread of
+    2-byte values; full=None: only a spread of both; plus a few longer ones."""
+    second = range(256) if full else SPREAD
+    vals = [bytes([i]) for i in (SPREAD if full is None else range(256))]
     vals += [bytes([0x7F, i]) for i in second] + [bytes([i, 0x7F]) for i in second if i != 0x7F]
     vals += [b"\x7f" * n for n in (3, 4, 8, 64)] + [b"\x7f\x00\x00", b"\x00\x00\x7f"]
     return vals
@@ -380,7 +384,7 @@ def run_reserved(rec: Recorder, d: Path, cls, clsname: str, in_patch: bool, full
             case = {"kind": "neighbour", "cls": clsname, "in_patch": in_patch, "hex": bs.hex()}
             k = f"v{i}"
             st, val = guarded(lambda: robj.__setitem__(f"n{i // 16}/{k}", np.void(bs)))
-            st2, val2 = guarded(lambda: robj["anchor"].attrs.__setitem__(k, np.void(bs)))
+            st2, val2 = guarded(lambda: robj[f"n{i // 16}/{k}"].attrs.__setitem__("a", np.void(bs)))  # attribute on the node itself
             rec.case(("neighbour", clsname, where, bs.hex()), nontrivial=True)
             if rec.check(st == "ok" and st2 == "ok", "c17:nonreserved-rejected", f"value {bs!r} (not the reserved marker) was refused: {val} / {val2}", case, FN_GUARD):
                 stored[k] = (f"n{i // 16}", bs)
@@ -393,12 +397,11 @@ def run_reserved(rec: Recorder, d: Path, cls, clsname: str, in_patch: bool, full
                 robj.close()
                 robj = cls(files[0].parent / files[0].name.split(".")[0], "r")
             bad = []
-            avals = dict(robj["anchor"].attrs.items())
-            dvals = {g: {k: ds[()] for k, ds in robj[g].items()} for g in {g for g, _ in stored.values()}}
+            dvals = {g: {k: (ds[()], dict(ds.attrs.items())) for k, ds in robj[g].items()} for g in sorted({g for g, _ in stored.values()})}
             for k, (g, bs) in stored.items():
-                if k not in dvals[g] or bytes_of(dvals[g][k]) != bs:
+                if k not in dvals[g] or bytes_of(dvals[g][k][0]) != bs:
                     bad.append(("dataset", bs.hex()))
-                if k not in avals or bytes_of(avals[k]) != bs:
+                if k not in dvals[g] or bytes_of(dvals[g][k][1].get("a")) != bs:
                     bad.append(("attr", bs.hex()))
             rec.check(not bad, f"c17:neighbour-differs:{stage}", f"values near the marker not read back identically ({where}, {stage}): {bad[:5]}",
                       {"kind": "neighbours", "cls": clsname, "in_patch": in_patch}, FN_GUARD + ["ih5/overlay.py:IH5InnerNode._children"])
@@ -548,7 +551,7 @@ def run(tier: str, seed: int) -> dict:
         # ---- reserved value & neighbours on the raw IH5 API ----------------------------------------------
         for clsname in (("ih5", "mf") if thorough else ("ih5",)):
             for in_patch in (False, True):
-                run_reserved(rec, d, DRIVERS[clsname], clsname, in_patch, full=thorough)
+                run_reserved(rec, d, DRIVERS[clsname], clsname, in_patch, full=(clsname == "ih5") if thorough else (False if in_patch else None))
         run_cross_copy(rec, d)
         if pack_file is not None:
             md = harvest_all(rec, d, fam_all)
@@ -567,8 +570,10 @@ def run(tier: str, seed: int) -> dict:
             done_short = True
             for n in range(1, L + 1):
                 for drv in drivers:
+                    if drv == "mf" and n > 1:
+                        continue  # IH5MFRecord differs from IH5Record only by the manifest: lengths 2, 3 on h5 and ih5 only
                     for h in itertools.product(alphabet(drv), repeat=n):
-                        if not left(0.66 if thorough else 0.97):
+                        if not left(0.58 if thorough else 0.97):
                             done_short = False
                             break
                         hist(drv, small, "".join(h), md=md)
@@ -580,13 +585,16 @@ def run(tier: str, seed: int) -> dict:
                     exhaustive = False
                     break
             if thorough:
-                # ---- all byte strings x all histories of length <= 2 (batched per container) -----------
+                # ---- all byte strings x all histories of length <= 2 (batched per container), h5 and ih5 ----
                 done2 = True
-                for drv in drivers:
+                base_labels = {lb for lb, _ in byte_family("quick", seed)} | {"reserved7f"}
+                for drv in ("h5", "ih5"):
                     for n in (1, 2):
+                        # IH5 length 2: the 40 strings of the base family (no random / MiB-sized ones), else all
+                        fam_n = [x for x in fam_all if x[0] in base_labels] if (drv == "ih5" and n == 2) else fam_all
                         for h in itertools.product(alphabet(drv), repeat=n):
-                            for b in batches(fam_all):
-                                if not left(0.88):
+                            for b in batches(fam_n):
+                                if not left(0.90):
                                     done2 = False
                                     break
                                 hist(drv, b, "".join(h), md=md)
@@ -597,7 +605,7 @@ def run(tier: str, seed: int) -> dict:
                     exhaustive = False
                 # ---- every byte string alone in its own container, pack_file harvesting ---------------------
                 for label, bs in fam_all:
-                    if not left(0.95):
+                    if not left(0.96):
                         cut.append("single-file containers cut by the time budget")
                         break
                     hist("ih5", [(label, bs)], "BCMBRG")
@@ -619,10 +627,10 @@ def run(tier: str, seed: int) -> dict:
              "as neighbours, (byte string) for the harvester and (byte string, algorithm) for util.hashsums",
         bound=f"{reached['bytes']} byte strings (lengths 0..{max(len(b) for _, b in fam_all)}); drivers {','.join(drivers)}; canonical histories "
               f"{ {k: v for k, v in CANONICAL.items() if k in drivers} } on all byte strings (containers of <= {BATCH} files): {reached['canonical_batches']} containers; "
-              f"all histories of length <= {L} over {{C,M,R}} (h5) / {{B,C,M,R,G}} (IH5) on {len(QUICK_SMALL) + 1} representative byte strings: {reached['short_hist']} containers"
-              + (f"; all histories of length <= 2 on all byte strings: {reached['allbytes_hist']} histories; single-file containers: {reached['single']}; "
+              f"all histories of length <= {L}{' (mf: <= 1)' if thorough else ''} over {{C,M,R}} (h5) / {{B,C,M,R,G}} (IH5) on {len(QUICK_SMALL) + 1} representative byte strings: {reached['short_hist']} containers"
+              + (f"; all histories of length <= 2 on all byte strings (h5; ih5: length 2 on the 40 base-family strings): {reached['allbytes_hist']} histories; single-file containers: {reached['single']}; "
                  f"random histories of length 4..7: {reached['random_hist']}" if thorough else "")
-              + f"; {reached['reads']} (byte string, step) read-backs; reserved value: {len(ROUTES)} routes x base/patch container; {len(neighbours(thorough)) - 1} neighbour values",
+              + f"; {reached['reads']} (byte string, step) read-backs; reserved value: {len(ROUTES)} routes x base/patch container; {len(neighbours(thorough)) - 1} neighbour values (1-byte: all 255; 2-byte with 0x7f: {"all 511" if thorough else "spread of 27"})",
         exhaustive=exhaustive,
         assumptions=["metadata of copies is judged only where present (presence is C06's concern)", "sha256 field accepted as bare hex or 'sha256:<hex>' (the pinned schema stores bare hex)",
                      "enumerated short histories hand pack_file the metadata harvested once per byte string by the real harvester; canonical/single histories let pack_file harvest"],
@@ -649,7 +657,7 @@ def replay(case: dict):
                 if not rec.violations:
                     run_history(rec, d / "all", case["driver"], [(lb, fam[lb]) for lb in labels], case["history"], md=md)
         elif kind == "reserved":
-            run_reserved(rec, d, DRIVERS[case["cls"]], case["cls"], case["in_patch"])
+            run_reserved(rec, d, DRIVERS[case["cls"]], case["cls"], case["in_patch"], full=None)
             rec.violations = [v for v in rec.violations if v["replay"]["case"].get("route") == case["route"]]
         elif kind in ("neighbour", "neighbours"):
             run_reserved(rec, d, DRIVERS[case["cls"]], case["cls"], case["in_patch"])
